@@ -1,0 +1,93 @@
+//go:build verif
+
+package npm
+
+import (
+	"context"
+	"sort"
+
+	"deps.dev/util/resolve"
+)
+
+// VerifTreeNode is a flattened view of one node of the install tree built by
+// Resolve. It is only available with the "verif" build tag and is used by an
+// external verification harness.
+type VerifTreeNode struct {
+	Index          int // position in the flattened slice; the root is 0
+	Parent         int // index of the parent, -1 for the root
+	Pkg            resolve.PackageKey
+	Version        resolve.VersionKey
+	ID             resolve.NodeID
+	Processed      bool
+	Bundled        bool
+	Children       map[string]int // package name -> index
+	Alias          map[string]int // alias -> index
+	Protected      []string       // package names, sorted
+	AliasProtected []string       // aliases, sorted
+}
+
+type verifSinkKey struct{}
+
+// VerifWithTreeSink returns a context that makes Resolve hand its final
+// install tree to sink just before returning.
+func VerifWithTreeSink(ctx context.Context, sink func([]VerifTreeNode)) context.Context {
+	return context.WithValue(ctx, verifSinkKey{}, sink)
+}
+
+func verifTreeHook(ctx context.Context, root *treeNode) {
+	sink, ok := ctx.Value(verifSinkKey{}).(func([]VerifTreeNode))
+	if !ok || sink == nil {
+		return
+	}
+	var out []VerifTreeNode
+	index := map[*treeNode]int{}
+	var walk func(n *treeNode, parent int)
+	walk = func(n *treeNode, parent int) {
+		if _, seen := index[n]; seen {
+			return
+		}
+		i := len(out)
+		index[n] = i
+		out = append(out, VerifTreeNode{
+			Index:     i,
+			Parent:    parent,
+			Pkg:       n.pkg,
+			Version:   n.ver.VersionKey,
+			ID:        n.id,
+			Processed: n.processed,
+			Bundled:   n.bundled != nil,
+			Children:  map[string]int{},
+			Alias:     map[string]int{},
+		})
+		for k := range n.protected {
+			out[i].Protected = append(out[i].Protected, k.Name)
+		}
+		sort.Strings(out[i].Protected)
+		for k := range n.aliasProtected {
+			out[i].AliasProtected = append(out[i].AliasProtected, k)
+		}
+		sort.Strings(out[i].AliasProtected)
+		var names []string
+		byName := map[string]*treeNode{}
+		for k, c := range n.children {
+			names = append(names, "c:"+k.Name)
+			byName["c:"+k.Name] = c
+		}
+		for k, c := range n.alias {
+			names = append(names, "a:"+k)
+			byName["a:"+k] = c
+		}
+		sort.Strings(names)
+		for _, nm := range names {
+			walk(byName[nm], i)
+		}
+		for k, c := range n.children {
+			out[i].Children[k.Name] = index[c]
+		}
+		for k, c := range n.alias {
+			out[i].Alias[k] = index[c]
+		}
+	}
+	walk(root, -1)
+	sink(out)
+}
